@@ -57,7 +57,8 @@ def run(run):
     cases = session.load_files([session.FileCase(p) for p in fx] + c02.written_files(run, run.tier) + c02.written_2d(run, run.tier), run)
     calls = []
     for fi, fc in enumerate(cases):
-        for op, a in readcalls.in_range_calls(fc.F, rng, 60 if quick else 400):
+        big = max(fc.F['n']) > 1000 or fc.F['n'][0] * fc.F['n'][1] > 3000
+        for op, a in readcalls.in_range_calls(fc.F, rng, 60 if (quick or big) else 400):
             calls.append((fi, op, a))
     answers = session.eval_calls(cases, calls, run)
     by_file = {}
